@@ -5,10 +5,14 @@ package main
 // canonical shape of an extracted top-level expression.
 
 import (
+	"fmt"
 	"sort"
+	"strconv"
 	"strings"
 
+	"cuelang.org/go/cue"
 	"cuelang.org/go/cue/ast"
+	"cuelang.org/go/cue/format"
 	"cuelang.org/go/cue/token"
 )
 
@@ -226,49 +230,72 @@ func typeMentions(s jv, name string) bool {
 	return found
 }
 
-// ---- class tags for the known divergences (narrow syntactic classes) -----------------------
-
-// c13Class names the known-finding class a (schema, instance) pair falls in, "" if none.
-// The order matters: the first matching class wins.
-func c13Class(s jv, inst jv, flags string) string {
-	return c13ClassImpl(s, inst, flags)
-}
-
-// c13GenClass: class of a reverse-direction case (original schema s, generated schema g).
-func c13GenClass(s, g jv, inst jv, flags string) string {
-	return c13GenClassImpl(s, g, inst, flags)
-}
-
-// c13AstFlags inspects the extracted CUE: "matchIf-error-arg" when some matchIf call has an
-// argument that is error("disallowed") (an unsatisfiable if / then / else).
-func c13AstFlags(f *ast.File) string {
-	flag := ""
-	hasErrorCall := func(e ast.Expr) bool {
-		found := false
-		ast.Walk(e, func(n ast.Node) bool {
-			if c, ok := n.(*ast.CallExpr); ok {
-				if id, ok := c.Fun.(*ast.Ident); ok && id.Name == "error" {
-					found = true
-				}
-			}
-			return true
-		}, nil)
-		return found
-	}
+// c13AstFlags inspects the extracted CUE on the REAL evaluator: "matchIf-bottom-arg" when some
+// matchIf call has an argument that evaluates to bottom on its own (error("disallowed"),
+// 1 & >=5, #d0 & (number | {...}) with #d0: bool, matchN(0,[_]) & null, …).  Each argument is
+// compiled as a regular field next to the file's top-level definitions / hidden fields (the
+// only things an argument refers to).
+func c13AstFlags(ctx *cue.Context, f *ast.File) string {
+	var args []ast.Expr
 	ast.Walk(f, func(n ast.Node) bool {
 		if c, ok := n.(*ast.CallExpr); ok {
 			if id, ok := c.Fun.(*ast.Ident); ok && id.Name == "matchIf" {
-				for _, a := range c.Args {
-					// error("disallowed") anywhere in an argument (e.g. inside list.MatchN(>=1, error(…)))
-					if hasErrorCall(a) {
-						flag = "matchIf-error-arg"
-					}
-				}
+				args = append(args, c.Args...)
 			}
 		}
 		return true
 	}, nil)
-	return flag
+	if len(args) == 0 {
+		return ""
+	}
+	// imports + the top-level definitions and hidden fields (what the arguments may refer to),
+	// without the schema's own root expression; each argument as a regular field
+	var body strings.Builder
+	var imports []string
+	for _, d := range f.Decls {
+		switch x := d.(type) {
+		case *ast.ImportDecl:
+			for _, sp := range x.Specs {
+				if path, err := strconv.Unquote(sp.Path.Value); err == nil {
+					imports = append(imports, path)
+				}
+			}
+		case *ast.Field:
+			if id, ok := x.Label.(*ast.Ident); ok && (strings.HasPrefix(id.Name, "#") || strings.HasPrefix(id.Name, "_")) {
+				b, err := format.Node(d)
+				if err != nil {
+					return ""
+				}
+				body.Write(b)
+				body.WriteString("\n")
+			}
+		}
+	}
+	n := 0
+	for _, a := range args {
+		b, err := format.Node(a)
+		if err != nil {
+			continue
+		}
+		fmt.Fprintf(&body, "c13arg%d: %s\n", n, b)
+		n++
+	}
+	var sb strings.Builder
+	for _, path := range imports {
+		name := path[strings.LastIndex(path, "/")+1:]
+		if strings.Contains(body.String(), name+".") { // an unused import is a compile error
+			fmt.Fprintf(&sb, "import %q\n", path)
+		}
+	}
+	sb.WriteString(body.String())
+	v := ctx.CompileBytes([]byte(sb.String()))
+	for i := 0; i < n; i++ {
+		fv := v.LookupPath(cue.ParsePath(fmt.Sprintf("c13arg%d", i)))
+		if fv.Exists() && fv.Err() != nil {
+			return "matchIf-bottom-arg"
+		}
+	}
+	return ""
 }
 
 // ---- fixed corpus ----------------------------------------------------------------------------
